@@ -30,6 +30,7 @@ type FSFile struct {
 	unsynced []writeRange
 	shadow   []Value // mapped files: cell contents at the last msync (or at mapping time)
 	mtags    []string // mapped files: tag charged with each dirty cell (see attributeMapped)
+	mtime    int      // logical modification time (Env.mclock at the last create/write/truncate)
 }
 
 type writeRange struct {
@@ -68,6 +69,7 @@ type flockState struct {
 
 type Env struct {
 	tick     int // harness logical clock (verifTick)
+	mclock   int // logical clock of file modification times
 	it       *Interp
 	opts     EnvOpts
 	nodes    map[string]*FSNode
@@ -116,6 +118,14 @@ func (e *Env) log(op FSOp) {
 	op.Tag = e.tag
 	if e.it.sched != nil && e.it.sched.cur != nil {
 		op.Thr = e.it.sched.cur.id
+	}
+	// modification times: a logical clock that ticks with every mutating FS operation (rename keeps the file's)
+	switch op.Kind {
+	case "create", "write", "truncate":
+		e.mclock++
+		if n, ok := e.nodes[clean(op.Path)]; ok && !n.isDir && n.file != nil {
+			n.file.mtime = e.mclock
+		}
 	}
 	e.ops = append(e.ops, op)
 }
@@ -558,6 +568,7 @@ type statInfo struct {
 	size  int
 	isDir bool
 	mode  uint64
+	mtime int
 }
 
 func (e *Env) statValue(p string, n *FSNode) Value {
@@ -566,6 +577,7 @@ func (e *Env) statValue(p string, n *FSNode) Value {
 		si.mode |= 1 << 31
 	} else {
 		si.size = n.file.size
+		si.mtime = n.file.mtime
 	}
 	return Iface{T: e.it.namedPtrType("os", "fileStat"), V: hostPtr("stat", si)}
 }
